@@ -210,3 +210,55 @@ def ifchain_to_switch(source):
     out, stats = [], [0]
     _emit(nodes, 0, out, stats)
     return "\n".join(out) + "\n" if stats[0] else None
+
+
+# ------------------------------------------------------------------------------------------
+# metamorphic rewriting: the same token sequence written without optional white space
+# ------------------------------------------------------------------------------------------
+
+# two-character sequences that are (or start) one token of the language: a space between such characters is kept
+_MERGE = {"++", "--", "+=", "-=", "*=", "/=", "%=", "==", "!=", "<=", ">=", "&&", "||", "<<", ">>", "&=", "|=", "^=", "->", "::",
+          "=>", "//", "/*", "*/", "..", "?.", "??"}
+
+
+def compact_operators(source):
+    """remove every space inside println(...) / assignment statements that does not separate two tokens which would otherwise
+    lex differently (identifier / number characters on both sides, or two operator characters that form a longer operator).
+    The token sequence — and so the meaning — is unchanged; `x < -1` becomes `x<-1`.  String literals are left alone."""
+    out_lines, changed = [], 0
+    for line in source.split("\n"):
+        ind = len(line) - len(line.lstrip(" "))
+        body = line[ind:]
+        if not (body.startswith("println(") or re.match(r"^[A-Za-z_]\w* [-+*/%&|^<>]*= ", body) or re.match(r"^(long|int) [A-Za-z_]\w* = ", body)):
+            out_lines.append(line)
+            continue
+        res, i, in_str = [], 0, False
+        while i < len(body):
+            ch = body[i]
+            if in_str:
+                res.append(ch)
+                if ch == "\\" and i + 1 < len(body):
+                    res.append(body[i + 1])
+                    i += 1
+                elif ch == '"':
+                    in_str = False
+            elif ch == '"':
+                in_str = True
+                res.append(ch)
+            elif ch == " ":
+                j = i
+                while j < len(body) and body[j] == " ":
+                    j += 1
+                c1 = res[-1] if res else ""
+                c2 = body[j] if j < len(body) else ""
+                wordy = lambda c: c.isalnum() or c == "_"
+                if (wordy(c1) and wordy(c2)) or (c1 + c2) in _MERGE or c1 == "" or c2 == "":
+                    res.append(" ")
+                else:
+                    changed += 1
+                i = j - 1
+            else:
+                res.append(ch)
+            i += 1
+        out_lines.append(" " * ind + "".join(res))
+    return "\n".join(out_lines) if changed else None
